@@ -54,6 +54,7 @@ func weightsFor(profile string) map[string]int {
 		base["relay"] = 14
 		base["sign_all"] = 10
 	case "C02", "C03":
+		base["val_recreate"] = 3
 		base["byz_claim"] = 8
 		base["orch_poll"] = 14
 		base["stake"] = 6
@@ -68,6 +69,8 @@ func weightsFor(profile string) map[string]int {
 	case "C15":
 		base["export_import"] = 6
 		base["oracle_round"] = 3
+		base["holders_only"] = 2
+		base["stake"] = 4
 		base["set_keys"] = 3
 	case "C16":
 		base["confirm_fuzz"] = 18
@@ -260,6 +263,9 @@ func (g *Gen) Step() {
 			in.As = "foreign0"
 		case 2:
 			in.ID = uint64(1 + g.R.Intn(40)) // arbitrary id: unknown, batched or already gone
+		case 3:
+			// the right id (and sender) under another chain's name, a truncated name or no name
+			in.Chain2 = []string{"prefix", "prefix3", "empty", "ethereum", "bsc", "minter", "hub", "tron"}[g.R.Intn(8)]
 		}
 		g.emit(in)
 	case "req_batch":
@@ -364,6 +370,15 @@ func (g *Gen) Step() {
 			in.Amt = strconv.FormatInt(stake, 10)
 		}
 		g.emit(in)
+	case "holders_only":
+		// every validator reports the same holder list and nobody reports prices (the two oracle results are
+		// independent: one may exist without the other)
+		hv := g.holderVals()
+		for v := range w.Vals {
+			g.emit(Intent{T: "oracle_claim", V: v, Op: "holders", Vals: hv})
+		}
+		g.emit(Intent{T: "block", Dt: 5, N: 6})
+		w.St.Probe("holders-only-round")
 	case "oracle_round":
 		g.oracleRound()
 	case "oracle_claim":
@@ -388,6 +403,34 @@ func (g *Gen) Step() {
 				g.emit(Intent{T: "byz_claim", V: v, Chain: ch, Pick: g.R.Intn(16), Net: ""})
 			}
 		}
+	case "val_recreate":
+		// a validator votes on a fresh event nobody else has reported yet, leaves staking completely, is
+		// created again under the same operator address and reports again
+		if len(w.Vals) < 3 {
+			break
+		}
+		v := g.R.Intn(len(w.Vals))
+		var tot int64
+		for _, s := range w.Cfg.Stakes {
+			tot += s
+		}
+		if w.Cfg.Stakes[v]*3 >= tot {
+			break
+		}
+		t := g.token()
+		g.emit(Intent{T: "orch_poll", V: v, Chain: t.Chain, N: 10})
+		g.emit(Intent{T: "block", Dt: 5, N: 1})
+		g.emit(Intent{T: "ext_deposit", U: g.R.Intn(len(w.Users)), Chain: t.Chain, Chain2: "hub", Denom: t.Denom, Amt: g.amount(big.NewInt(1000000)), Fee: "0"})
+		g.emit(Intent{T: "orch_poll", V: v, Chain: t.Chain, N: 10})
+		g.emit(Intent{T: "block", Dt: 5, N: 1})
+		g.emit(Intent{T: "stake", V: v, Op: "undelegate", Amt: strconv.FormatInt(w.Cfg.Stakes[v], 10)})
+		g.emit(Intent{T: "block", Dt: 5, N: 1})
+		g.emit(Intent{T: "block", Dt: int(w.Cfg.UnbondingSecs) + 10, N: 2})
+		g.emit(Intent{T: "stake", V: v, Op: "recreate", Amt: strconv.FormatInt(w.Cfg.Stakes[v], 10)})
+		g.emit(Intent{T: "block", Dt: 5, N: 2})
+		g.emit(Intent{T: "orch_poll", V: v, Chain: t.Chain, N: 10})
+		g.emit(Intent{T: "block", Dt: 5, N: 1})
+		w.St.Probe("validator-recreate-scenario")
 	case "orch_release_steal":
 		// a validator rotates its keys away and back, which releases its first orchestrator account; another
 		// validator then registers that account, and the account keeps sending claims
@@ -458,7 +501,7 @@ func (g *Gen) Step() {
 		}
 		g.emit(in)
 	case "set_keys":
-		ops := []string{"", "", "fresh", "fresh", "xchain", "xchain", "steal_ext", "steal_ext_key", "steal_ext_key", "steal_orch", "stale", "future", "wrong_key", "replay", "unknown_val", "other_signer", "rotate_orch", "rotate_orch_badsig", "share_orch", "share_orch", "self_orch", "back_to_first"}
+		ops := []string{"", "", "fresh", "fresh", "xchain", "xchain", "steal_ext", "steal_ext_key", "steal_ext_key", "steal_orch", "stale", "future", "wrong_key", "replay", "unknown_val", "other_signer", "rotate_orch", "rotate_orch_badsig", "share_orch", "share_orch", "self_orch", "back_to_first", "orch_other_val", "orch_other_val"}
 		chains := append(append([]string{}, Chains...), "tron")
 		in := Intent{T: "set_keys", V: g.R.Intn(len(w.Vals)), Chain: chains[g.R.Intn(len(chains))], Op: ops[g.R.Intn(len(ops))], Pick: g.R.Intn(len(w.Vals)), Net: g.net()}
 		if g.R.Intn(8) == 0 {
